@@ -144,8 +144,9 @@ def run_world(hists, fixed=True, release=False):
         v = lines[2 * k + 1].split()
         assert v[0] == "V"
         v = [int(x) for x in v[1:]]
-        res.append(dict(hist=h, impl=parse_tr(impl_lines[k]), model=model, eq=v[0], complete=v[1],
-                        acc_pos=v[2], acc_code=v[3], c01d=v[4], c02d=v[5]))
+        full = parse_tr(impl_lines[k])
+        res.append(dict(hist=h, impl=full[0::2], effects=full[1::2], impl_full=full, model=model, eq=v[0],
+                        complete=v[1], acc_pos=v[2], acc_code=v[3], c01d=v[4], c02d=v[5], extra=v[6:]))
     return res
 
 
@@ -288,7 +289,7 @@ def shrink_world(pid, hist, fixed=True):
 
 def summarize(r):
     return dict(history=wg.pretty(r["hist"]), encoded=wg.encode(r["hist"]),
-                impl=" | ".join(" ".join(map(str, o)) for o in r["impl"]),
+                impl=" | ".join(" ".join(map(str, o)) for o in r["impl_full"]),
                 model=" | ".join(" ".join(map(str, o)) for o in r["model"]),
                 faithful_equal=bool(r["eq"]), spec_accept=(r["acc_code"] == 0),
                 spec_reject_pos=r["acc_pos"], spec_reject_code=r["acc_code"])
